@@ -94,7 +94,7 @@ func c11Stale(c *Ctx) {
 		MapMode: base.MapMode, MapSalt: base.MapSalt}
 	cfg.JobFaults = map[string]string{key + "#1": end}
 	if lingers {
-		cfg.JobFaults[key+"#2"] = "hang"
+		cfg.JobFaults[key+"#2"] = "hang-silent"
 	}
 	r := c.RunOnce(cfg, nil)
 	c.Res.Class = "stale-checked"
@@ -121,7 +121,7 @@ func c11Stale(c *Ctx) {
 				}
 			}
 		}
-		if a2 != nil && a2.Fault == "hang" {
+		if a2 != nil && a2.Fault == "hang-silent" {
 			c.Res.Probes["silent-replacement-next-to-lingering-attempt"]++
 			if a3 == nil {
 				add("silent-attempt-kept-alive-by-foreign-heartbeats", fmt.Sprintf("the replacement (attempt 2) hung without a sign of life and was never given up (run ended %s)", r.Class()))
